@@ -457,6 +457,9 @@ pub fn logfuzz(ex: &mut Exec, muts: &[LogMutation], adopt: bool) {
 			None => logged,
 		}
 	};
+	// An image on which one of the two known replay defects may have struck is checked but not
+	// continued on: its tables can be silently rewound even when the logical content matches.
+	let adopt = adopt && !rewind_possible && !first_pending_damaged;
 	let ok = open_and_judge(ex, &img, j_tables, upper, n, rewind_possible, first_pending_damaged, adopt);
 	if ok.is_some() && adopt {
 		// continue on the mutated image
